@@ -187,7 +187,10 @@ def run_case(case, tmp):
     nexec = len(rd("executed")) if exists("executed") else 0
     want_exec = expected_executed(mode, k, n)
     if nexec != want_exec:
-        raise core.HarnessError("script executed %d statements, model says %d (mode %s): %s" % (nexec, want_exec, mode, r.stderr[-300:]))
+        # plain Python runs exactly want_exec statements of this script: more means an exit request / exception did not end it,
+        # fewer means a traced statement itself failed - with the library in between, either is the library's doing
+        return ("%s on %s: the script executed %d of its %d statements, plain Python semantics give %d (the termination is at position %d); stderr: %s" % (
+            mode, backend, nexec, n, want_exec, k, r.stderr.strip()[-200:])), "script-flow"
     autoprove_label = autoprove
     if autoprove == "off-then-on":
         autoprove = nexec >= 1           # what the switch holds when the script ends
